@@ -190,6 +190,9 @@ type allocRun struct {
 	// refused its old prefix asks for it again, byte for byte, once it has become free
 	refusedIP    net.IP
 	refusedBlock uint64
+	// twoFaced: the block (if any, and if it is not the only one) that holds the whole IPv4-mapped space - its
+	// addresses there have a second, 4-byte representation; operations concentrate on it
+	twoFaced int64
 	nb           allocators.Allocator
 	nbPool       *model.Pool
 	nbOut        map[uint64]bool
@@ -255,6 +258,13 @@ func (allocEngine) Run(ctx *fw.Ctx, cs any) {
 	if err != nil {
 		r.viol("C05", "constructor-rejects-valid-pool", "constructor failed: %v", err)
 		return
+	}
+	r.twoFaced = -1
+	if !c.V4 && c.Page < 96 && r.pool.N > 1 {
+		if idx, in, _ := r.pool.Locate(new(big.Int).SetUint64(0xffff00000000)); in {
+			r.twoFaced = int64(idx)
+			ctx.Count("alloc.histories_with_a_block_holding_the_mapped_space", 1)
+		}
 	}
 	if r.pool.N >= 4 && r.pool.N <= 1<<20 && r.pool.N%2 == 0 && c.Seed%4 == 1 {
 		half := r.pool.N / 2
@@ -433,7 +443,14 @@ func (r *allocRun) doAlloc() {
 			hint.IP = append(net.IP(nil), r.refusedIP...)
 			r.refusedIP = nil
 			r.ctx.Count("alloc.hint_repeated_after_its_block_became_free", 1)
+			if hint.IP.To4() != nil && !p.V4 {
+				r.ctx.Count("alloc.mapped_hint_repeated_after_its_block_became_free", 1)
+				r.ctx.Count(fmt.Sprintf("alloc.mapped_hint_repeated.pool%d.page%d.block%d_of_%d", c0(p), p.Page, hintBlock, p.N), 1)
+			}
 		} else if b, ok := r.pickBlock(false); ok {
+			if r.twoFaced >= 0 && !r.out[uint64(r.twoFaced)] && r.rng.Intn(3) == 0 {
+				b = uint64(r.twoFaced)
+			}
 			class = "free-block"
 			hintBlock = int64(b)
 			hint.IP = r.addrIn(int64(b), r.rng.Intn(2) == 0)
@@ -449,8 +466,12 @@ func (r *allocRun) doAlloc() {
 					}
 				}
 			}
+			atBase := r.rng.Intn(2) == 0
+			if r.twoFaced >= 0 && r.out[uint64(r.twoFaced)] && r.rng.Intn(2) == 0 {
+				b, atBase = uint64(r.twoFaced), false
+			}
 			class = "taken-block"
-			hint.IP = r.addrIn(int64(b), r.rng.Intn(2) == 0)
+			hint.IP = r.addrIn(int64(b), atBase)
 			r.refusedIP, r.refusedBlock = append(net.IP(nil), hint.IP...), b
 		}
 	case k == 8: // outside, below
